@@ -3,8 +3,9 @@
    stack: current cow, its parents, the ledger), model/EvalGroup.v (TransactionGroup: child
    cow, per-transaction loop, group checks, fee check, Payset append + commitToParent last,
    recycle on every exit).  The evaluator state [evalst] = (overlay, Payset, corrupted flag);
-   the overlay holds all account writes, txids, leases, txnCount and feesCollected, so
-   equality of [evalst] is equality of every observable.  Not modelled: blockTxBytes
+   the overlay holds all account writes, asset params / holdings / creatables, txids, leases,
+   txnCount and feesCollected, so equality of [evalst] is equality of every observable.
+   Transactions: payment, keyreg, asset config / transfer / freeze; application calls excluded.  Not modelled: blockTxBytes
    (ErrNoSpace), tracer hooks, a panic after the commit point (corruptedState is only ever
    read), Go-level aliasing of pooled cows (observable in the harness only). *)
 From Coq Require Import NArith ZArith List Bool String.
